@@ -113,7 +113,7 @@ class Runner:
         out = []
         classes = ["emitted", "encoded", "lower-escapes", "absolute-url", "deleted", "never-existed", "other-collection", "other-kind", "collection-itself", "outside-prefix",
                    "sibling-prefix", "empty", "lone-percent", "bad-escape", "dot-segments", "duplicate", "absolute-url-other-host", "root", "parent-collection", "trailing-slash-on-member",
-                   "bogus-parent-same-basename", "bogus-parent-same-basename", "alias-with-canonical", "alias-with-canonical"]
+                   "bogus-parent-same-basename", "bogus-parent-same-basename", "alias-with-canonical", "alias-with-canonical", "sibling-with-name-prefix", "sibling-with-name-prefix"]
         for _ in range(n):
             c = rng.choice(classes)
             if c == "emitted" and live:
@@ -141,6 +141,11 @@ class Runner:
             elif c == "other-collection" and self.live.get(othercol):
                 nm = rng.choice(sorted(self.live[othercol]))
                 out.append((w.url(othercol, nm), c, "found", (othercol, nm)))
+            elif c == "sibling-with-name-prefix" and self.live.get(colpath.rstrip("/") + "x/"):
+                # a collection next to this one whose name merely begins with this one's name
+                sib = colpath.rstrip("/") + "x/"
+                nm = rng.choice(sorted(self.live[sib]))
+                out.append((w.url(sib, nm), c, "found", (sib, nm)))
             elif c == "other-kind" and self.live.get(otherkindcol):
                 nm = rng.choice(sorted(self.live[otherkindcol]))
                 out.append((w.url(otherkindcol, nm), c, "nodata", (otherkindcol, nm)))
@@ -194,7 +199,12 @@ class Runner:
         return out
 
     def multiget(self, colpath, kind, hrefs):
-        s, r = self.w.report(colpath, X.multiget(kind, hrefs, data=True), record=False)
+        if getattr(self, "noslash", False):
+            # the same report addressed to the collection URL without its trailing slash
+            s, r = self.w.rd("report", "REPORT", self.w.url(colpath).rstrip("/"), [("Depth", "1"), X.XML_CT], X.multiget(kind, hrefs, data=True), record=False)
+            self.res.count("multigets_to_url_without_trailing_slash")
+        else:
+            s, r = self.w.report(colpath, X.multiget(kind, hrefs, data=True), record=False)
         self.log.append({"op": "multiget", "col": colpath, "hrefs": hrefs, "status": s.status})
         del self.log[:-20]
         if r.status != 207:
@@ -218,6 +228,7 @@ class Runner:
 
     def judge_list(self, colpath, kind, items):
         w, res = self.w, self.res
+        self.noslash = self.rng.random() < 0.3
         hrefs = [h for h, _, _, _ in items]
         rs, s = self.multiget(colpath, kind, hrefs)
         res.evaluations += 1
@@ -358,12 +369,17 @@ def run_concurrent(args):
 
         tokre = re.compile(r"c17c\d+x\d+z")
 
-        def reader():
-            r = random.Random(args["seed"] + 2)
+        prop_mixups = []
+
+        def reader(with_data=True):
+            r = random.Random(args["seed"] + 2 + (0 if with_data else 7))
             while not stop.is_set():
                 if r.random() < (0.8 if args.get("judge", "multiget") == "multiget" else 0.25):
                     hrefs = [w.url(col, nm) for nm in r.sample(names, r.randint(1, 3))]
-                    resp = FE.raw_http(w.fe.addr, "REPORT", w.url(col), [("Depth", "1"), X.XML_CT], X.multiget(kind, hrefs, data=True), timeout=30)
+                    if not with_data:
+                        # a second client that only wants ETags: neither request may be answered with the other's property list
+                        hrefs = [w.url(col, r.choice(names))]
+                    resp = FE.raw_http(w.fe.addr, "REPORT", w.url(col), [("Depth", "1"), X.XML_CT], X.multiget(kind, hrefs, data=with_data), timeout=30)
                     if resp.status != 207:
                         counts["errors"] += 1
                         continue
@@ -376,6 +392,12 @@ def run_concurrent(args):
                     for x in rs:
                         data = x.prop_text(X.P_CALDATA if kind == "calendar" else X.P_ADDRDATA)
                         et = x.prop_text(X.P_ETAG)
+                        dprop = X.P_CALDATA if kind == "calendar" else X.P_ADDRDATA
+                        counts["answers"] = counts.get("answers", 0) + 1
+                        if with_data and x.status != 404 and dprop not in x.props:
+                            prop_mixups.append(("data-requested-but-not-answered", x.href))
+                        if not with_data and dprop in x.props:
+                            prop_mixups.append(("data-answered-but-not-requested", x.href))
                         if data is not None and et is not None:
                             m = tokre.search(re.sub(r"\r?\n[ \t]", "", data))
                             seen_pairs.append(("multiget", x.href, et, m.group(0) if m else "no-token:" + repr(data[:300])))
@@ -387,7 +409,7 @@ def run_concurrent(args):
                         seen_pairs.append(("get", nm, resp.header("ETag"), m.group(0) if m else None))
                         counts["gets"] += 1
 
-        ts = [threading.Thread(target=writer), threading.Thread(target=reader), threading.Thread(target=reader)]
+        ts = [threading.Thread(target=writer), threading.Thread(target=reader), threading.Thread(target=reader, args=(False,))]
         for t in ts:
             t.start()
         time.sleep(args["seconds"])
@@ -415,6 +437,12 @@ def run_concurrent(args):
                 else:
                     res.violation(f"aio/{args['backend']}/{kind}/concurrent-overwrite/get-serves-etag-of-one-write-with-body-of-another",
                                   f"GET {href!r} answered ETag {et} (issued for body {sorted(toks)!r}) with the body of write {tok!r}: one ETag, two byte strings", {"config": dict(args)})
+        res.count("concurrent_answers_checked_for_their_property_list", counts.get("answers", 0))
+        for (what, href) in prop_mixups[:50]:
+            if args.get("judge", "multiget") == "multiget":
+                res.violation(f"aio/{args['backend']}/{kind}/concurrent-multigets/{what}", f"two clients sent multigets with different property lists at the same time: the answer for {href!r} has the other request's property list ({what})", {"config": dict(args)})
+            else:
+                res.count("observation:multiget-" + what)
         res.count("concurrent_runs")
         res.count("concurrent_writes", counts["writes"])
         res.count("concurrent_multigets", counts["multigets"])
@@ -450,6 +478,10 @@ def run_shard(args):
             run.kinds[p] = kind
         run.kinds["/user/calendars/barecal/"] = "calendar"
         layout.append(("/user/calendars/barecal/", "calendar"))
+        for p, kind in (("/user/calendars/cal0x/", "calendar"), ("/user/contacts/ab0x/", "addressbook")):
+            w.mkcol(p, kind)
+            run.kinds[p] = kind
+            layout.append((p, kind))
         names = {}
         for p, kind in layout:
             ext = ".ics" if kind == "calendar" else ".vcf"
@@ -501,8 +533,9 @@ def check(tier, seed, t0):
     k = 1 if not th else 15
     guards = [("href lists", c.get("lists", 0), 1200 * k), ("href classes judged", c.get("hrefs_judged", 0), 6000 * k), ("found answers compared with GET", c.get("found_compared_with_get", 0), 800 * k),
               ("singleton replays", c.get("singleton_replays", 0), 6000 * k), ("answers found", c.get("outcome:found", 0), 800 * k), ("answers not found", c.get("outcome:notfound", 0), 500 * k),
-              ("(ETag, data) pairs of multigets concurrent with overwrites", c.get("concurrent_pairs_judged:multiget", 0), 300 * (1 if not th else 6)), ("overwrites during concurrent runs", c.get("concurrent_writes", 0), 100)]
-    for cl in ("emitted", "encoded", "lower-escapes", "absolute-url", "deleted", "never-existed", "other-collection", "other-kind", "collection-itself", "outside-prefix", "sibling-prefix", "empty", "bad-escape", "dot-segments", "bogus-parent-same-basename", "doubled-slash"):
+              ("(ETag, data) pairs of multigets concurrent with overwrites", c.get("concurrent_pairs_judged:multiget", 0), 300 * (1 if not th else 6)), ("overwrites during concurrent runs", c.get("concurrent_writes", 0), 100),
+              ("multigets sent to the collection URL without trailing slash", c.get("multigets_to_url_without_trailing_slash", 0), 300 * k)]
+    for cl in ("emitted", "encoded", "lower-escapes", "absolute-url", "deleted", "never-existed", "other-collection", "other-kind", "collection-itself", "outside-prefix", "sibling-prefix", "empty", "bad-escape", "dot-segments", "bogus-parent-same-basename", "doubled-slash", "sibling-with-name-prefix"):
         guards.append(("class " + cl, c.get("class:" + cl, 0), 20))
     return common.finish(PROP, tier, seed, "exploration", merged, failures, RULE, t0, guards=guards,
                          assumptions=["XML parsers normalise CRLF to LF: data is compared modulo line ends", "hrefs on another host, dot-segment or doubled-slash spellings and member hrefs with a trailing slash may be answered found or not found (checked for consistency and independence only)", "two hrefs count as the same href iff equivalent under RFC 3986 6.2.2 normalisation (escapes, dot segments, scheme+authority dropped): those may share one answer; doubled / trailing slashes make a distinct href"])
